@@ -23,6 +23,21 @@ def culprit(items, r):
     return None
 
 
+def align_between(items, it):
+    """is there an `align` strictly between item `it` and (the definition of) a label it refers to?"""
+    try:
+        i = next(n for n, x in enumerate(items) if x is it)
+    except StopIteration:
+        return False
+    for name in L.refs(it):
+        for j, x in enumerate(items):
+            if x['k'] == 'label' and x['name'] == name:
+                lo, hi = min(i, j), max(i, j)
+                if any(y['k'] == 'align' for y in items[lo + 1:hi]):
+                    return True
+    return False
+
+
 def judge(ctx, items, res, driver, case):
     u, c = res[False], res[True]
     if u.status != 'ok':
@@ -36,8 +51,8 @@ def judge(ctx, items, res, driver, case):
     consts = {i['name'] for i in items if i['k'] == 'const' and 'name' in i}
     if it is not None and consts & set(L.refs(it)):
         cls += ':const-target'          # the operand names a CONSTANT (an absolute address / value), not a label
-    if any(i['k'] == 'align' for i in items):
-        cls += ':with-align'
+    if it is not None and align_between(items, it):
+        cls += ':align-between'         # an align lies between the culprit and a label it refers to (its padding can grow when code in front shrinks)
     key = '%s:%s:%s:%s' % (PROP, progs.head(it) if it else 'program', progs.spec_class(it) if it else '-', cls)
     msg = kernel.errline(c.exc)
     ctx.violation(key, 'assembles without -c (%d bytes) but with -c fails at %r: %s' % (len(u.out), it['text'][:60] if it else '?', msg[:160]),
